@@ -541,7 +541,7 @@ Ltac float_select :=
          end.
 Ltac float_field :=
   first [reflexivity | apply f_min_select | apply f_max_select
-        | solve [unfold std_f32, fast_f32, std_f64, fast_f64, float_math; cbn [m_cmp_min m_cmp_max]; float_select]].
+        | solve [unfold gen_f32_math, gen_f64_math, std_f32, fast_f32, std_f64, fast_f64, float_math; cbn [m_cmp_min m_cmp_max]; float_select]].
 
 Lemma gen_f32_is_spec : forall v, mathops_ext (gen_f32_math v) float_math.
 Proof. intros []; unfold mathops_ext; repeat split; intros; float_field. Qed.
